@@ -18,6 +18,7 @@ import (
 	"github.com/ucan-wg/go-ucan/pkg/command"
 	"github.com/ucan-wg/go-ucan/pkg/meta"
 	"github.com/ucan-wg/go-ucan/pkg/policy"
+	"github.com/ucan-wg/go-ucan/pkg/policy/limits"
 	"github.com/ucan-wg/go-ucan/token/internal/nonce"
 	"github.com/ucan-wg/go-ucan/token/internal/parse"
 )
@@ -174,6 +175,21 @@ func (t *Token) validate() error {
 
 	if len(t.nonce) < 12 {
 		errs = errors.Join(errs, fmt.Errorf("token nonce too small"))
+	}
+
+	// what is sealed must be readable again: time bounds and policy integers within the 53-bit safe range
+	safeTime := func(ti *time.Time, fieldname string) {
+		if ti != nil && (ti.Unix() > limits.MaxInt53 || ti.Unix() < limits.MinInt53) {
+			errs = errors.Join(errs, fmt.Errorf("%s exceeds safe integer bounds", fieldname))
+		}
+	}
+	safeTime(t.notBefore, "NotBefore")
+	safeTime(t.expiration, "Expiration")
+
+	if pol, err := t.policy.ToIPLD(); err != nil {
+		errs = errors.Join(errs, err)
+	} else if err := limits.ValidateIntegerBoundsIPLD(pol); err != nil {
+		errs = errors.Join(errs, fmt.Errorf("policy: %w", err))
 	}
 
 	return errs
